@@ -15,6 +15,8 @@ Configuration spec (``cfg``, pure JSON - part of every case)
                                        custom action, False = every turn asks the LLM (PassthroughLLMAction),
                                        "llmc" = the library's `llm continuation` (import llm) with intent flows: the LLM
                                        picks the user intent and, for unhandled intents, generates the bot action
+     "passthrough": bool,              v1 only: `passthrough: True` (the LLM gets the raw request: the message list without
+                                       dialog rails, `$user_message` with them)
      "exc": bool,                      enable_rails_exceptions
      "style": "config" | "hand"}       v2 only: rails listed in config.yml (parameterless flows reading the globals)
                                        or hand-written `flow input rails $input_text` passing the text on
@@ -47,6 +49,7 @@ API
     never a VIOLATION - instance reuse must not be able to fabricate findings; C15 owns that subject).
 """
 import asyncio
+import copy
 import json
 from collections import OrderedDict
 
@@ -223,6 +226,8 @@ def _v1_config(cfg):
     if ret:
         rails["retrieval"] = {"flows": ret}
     y = {"models": MODELS, "enable_rails_exceptions": bool(cfg.get("exc")), "rails": rails, "prompts": SELF_CHECK_PROMPTS}
+    if cfg.get("passthrough"):
+        y["passthrough"] = True
     return "\n".join(co), yaml.safe_dump(y, sort_keys=False)
 
 
@@ -416,7 +421,8 @@ class Pipeline:
         user = {"role": "user", "content": turn["user"]}
         kw = {}
         if self.v == 1:
-            msgs = list(session.messages) + [user]
+            # fresh message objects for every call, as a server builds them (passthrough mode writes into them)
+            msgs = copy.deepcopy(session.messages) + [dict(user)]
             if turn.get("bot") is not None:
                 msgs.append({"role": "assistant", "content": turn["bot"]})
             kw["messages"] = msgs
@@ -438,7 +444,8 @@ class Pipeline:
         if self.v == 1:
             session.messages.append(user)
             if session.turns[t].get("bot") is None:
-                session.messages.append(msg)
+                if not (self.cfg.get("passthrough") and msg.get("role") == "exception"):
+                    session.messages.append(msg)  # (a rail exception is not a chat message the raw request could carry)
             else:
                 session.messages.append({"role": "assistant", "content": session.turns[t]["bot"]})
         else:
@@ -571,7 +578,7 @@ def view(case, obs, max_len=160):
 
 def model_input(cfg, spec, t, selected=True):
     """{"calls": [{"rail","sees","not","verdict"}], "blocked": i | None, "final": marker, "orig": marker}"""
-    orig = cur = fakes.mk_user(t)
+    orig = cur = fakes.mk_user(spec.get("umark", t))  # "umark": the turn repeats the exact text of an earlier turn
     calls = []
     if not selected:
         return {"calls": calls, "blocked": None, "final": cur, "orig": orig}
